@@ -427,7 +427,8 @@ def main():
             kf = [k for k in known.get("findings", []) if k.get("property") == pid and k.get("bounded_signature")
                   and k["bounded_signature"] == sig]
             if kf:
-                run.known.append((sig, kf[0]))
+                if not any(k0 == sig for k0, _ in run.known):
+                    run.known.append((sig, kf[0]))
                 continue
             run.violations.append((v.get("contract", "bounded"), v.get("replay"), ""))
     # ---- evidence
